@@ -12,6 +12,7 @@ import types
 from hypothesis import strategies as st
 
 from vlib import gen_values as gv
+from vlib import ref_order
 from vlib.compare import scalar_equal
 from vlib.runner import Arm, Eval, Failure, VERIF
 from vlib.util import exc_key, exc_msg, have_c
@@ -35,9 +36,10 @@ RULE = ("Hypothesis-generated object graphs over a class family with one class p
 ASSUMPTIONS = [
     "classes, functions, builtins and modules are compared by identity (pickle cannot pickle modules; 'by name' means the same object)",
     "a cycle counts as constructible only if every node on it is a list, a dict or a plain-__dict__ instance",
-    "documents that contain a cycle and any deeply constructed shape (constructor arguments, items or state of python/object/new|apply "
-    "nodes, __setstate__ state) fall into the listed known finding (a cycle first reached in deep-construction mode is rejected) "
-    "when they are rejected with 'found unconstructable recursive node'",
+    "which cycles can be built is decided by vlib/ref_order.py, a reference model of the documented two-phase construction order "
+    "run on the composed node graph of the dumped text: where it says a cycle cannot be built exactly ConstructorError ('found "
+    "unconstructable recursive node') is required, elsewhere the result must be bisimilar to pickle's; cycles through lists, dicts "
+    "and plain instances only that the model rejects are the listed known finding (reproduced by its pinned input)",
 ]
 
 
@@ -401,6 +403,12 @@ def full_loaders():
     return [("FullLoader", yaml.FullLoader)] + ([("CFullLoader", yaml.CFullLoader)] if have_c() else [])
 
 
+def _has_setstate(name):
+    obj = sys.modules.get(name.rsplit(".", 1)[0]) if "." in name else None
+    cls = getattr(obj, name.rsplit(".", 1)[1], None) if obj is not None else None
+    return hasattr(cls, "__setstate__")
+
+
 _objtag = re.compile(r"python/(object|module)")
 
 
@@ -433,7 +441,7 @@ def eval_graph(case):
     except Exception as e:
         # pickle itself refuses this graph: there is no reference to compare with
         return Eval([], sorted(cl | {"pickle-cannot"}), nontrivial=False, ident=repr(case), evals=1)
-    may_reject = bool(info["unsafe_cycle"])
+    may_reject = False
     # deep construction (constructor arguments, list/dict items and state of python/object/new|apply nodes, __setstate__ state)
     # cannot build a cycle that is first reached inside it - even one that runs through lists and dicts only
     deep_shapes = info["shapes"] - {"l", "d", "plain", "t", "set", "fs", "named", "enum", "strsub", "intsub", "frozen"}
@@ -449,6 +457,16 @@ def eval_graph(case):
             continue
         plain_text = text if isinstance(text, str) else text.decode(opts.get("encoding") or "utf-8")
         has_obj = bool(_objtag.search(plain_text))
+        # what the documented construction order can build (reference model on the composed node graph)
+        try:
+            root = yaml.compose(text, Loader=yaml.Loader)
+        except Exception as e:
+            failures.append(Failure("dump-output-does-not-compose:%s:%s" % (dname, exc_key(e)), "%s\ntext=%r" % (exc_msg(e), plain_text[:300])))
+            continue
+        offending = ref_order.simulate(root, _has_setstate) if root is not None else None
+        model_rejects = offending is not None
+        if model_rejects:
+            cl.add("model-rejects:%s" % ("cycle-through-lists-dicts-instances-only(known finding)" if not info["unsafe_cycle"] else "unconstructible-cycle"))
         cl.add("text:has-object-tags" if has_obj else "text:tuple/complex/name-subset-only")
         for lname, L in loaders():
             evals += 1
@@ -458,10 +476,8 @@ def eval_graph(case):
                 failures.append(Failure("RecursionError:%s>%s" % (dname, lname), "text=%r" % plain_text[:300]))
                 continue
             except yaml.constructor.ConstructorError as e:
-                if may_reject:
-                    cl.add("unconstructible-cycle:rejected")
-                elif known_deep and "unconstructable recursive" in str(e):
-                    failures.append(Failure("cycle-rejected-in-document-with-setstate-class:%s>%s" % (dname, lname), "%s\ntext=%r" % (exc_msg(e), plain_text[:300])))
+                if model_rejects and "unconstructable recursive" in str(e):
+                    pass        # exactly what the model of the construction order predicts
                 else:
                     failures.append(Failure("load-rejects-dump-output:%s>%s:%s" % (dname, lname, exc_key(e)), "%s\ntext=%r" % (exc_msg(e), plain_text[:400])))
                 continue
@@ -471,10 +487,13 @@ def eval_graph(case):
                     key = "state-hashed-key:" + key
                 failures.append(Failure(key, "%s\ntext=%r" % (exc_msg(e), plain_text[:400])))
                 continue
+            if model_rejects:
+                failures.append(Failure("unbuildable-cycle-accepted:%s>%s" % (dname, lname), "the construction-order model says this document cannot be built\ntext=%r" % plain_text[:400]))
+                continue
             d = graph_equal(ref, back)
             if d:
                 kind = "sharing" if "sharing" in d else "identity" if "identity" in d else "type" if ": type " in d else "state"
-                failures.append(Failure("differs-from-pickle:%s>%s:%s%s" % (dname, lname, kind, ":unconstructible-cycle" if may_reject else ""),
+                failures.append(Failure("differs-from-pickle:%s>%s:%s%s" % (dname, lname, kind, ""),
                                         "%s\ntext=%r" % (d, plain_text[:400])))
         for lname, L in full_loaders():
             evals += 1
@@ -494,7 +513,7 @@ def eval_graph(case):
                                             "%s\ntext=%r" % (exc, plain_text[:300])))
             else:
                 if exc is not None:
-                    if may_reject and isinstance(exc, yaml.constructor.ConstructorError):
+                    if model_rejects and isinstance(exc, yaml.constructor.ConstructorError):
                         continue
                     failures.append(Failure("full-loader-rejects-tuple/complex/name-subset:%s>%s:%s" % (dname, lname, type(exc).__name__ if not isinstance(exc, str) else exc),
                                             "%s\ntext=%r" % (exc, plain_text[:300])))
@@ -630,8 +649,6 @@ REQUIRED_CLASSES = ["shape:plain", "shape:slots", "shape:slotsdict", "shape:gets
 
 
 def known_class(arm, case, key):
-    if key.startswith("cycle-rejected-in-document-with-setstate-class:"):
-        return "deep-construction-rejects-cycle-first-reached-from-setstate-state"
     if key.startswith("state-hashed-key:"):
         return "mapping-key-hashed-before-its-state-is-set"
     return None
